@@ -732,7 +732,30 @@ type lenObs struct {
 	Seq  uint64
 	N    int
 	Task int
+	Sel  bool // asked by the manager's round-robin selection (as opposed to a pending count)
 }
+
+// inSelection reports whether the current Len() call comes from the queue manager's
+// round-robin selection (C15 only: the selection itself becomes observable, not just the
+// dequeue that follows it).
+func inSelection() bool {
+	var pcs [10]uintptr
+	n := runtime.Callers(2, pcs[:])
+	for _, pc := range pcs[:n] {
+		v, ok := selPC[pc]
+		if !ok {
+			f := runtime.FuncForPC(pc - 1)
+			v = f != nil && strings.Contains(f.Name(), "GetRoundRobinItem")
+			selPC[pc] = v
+		}
+		if v {
+			return true
+		}
+	}
+	return false
+}
+
+var selPC = map[uintptr]bool{}
 
 type recPQ struct{ *recQ }
 
@@ -905,7 +928,7 @@ func (r *recQ) forget(item any) int {
 func (r *recQ) Len() int {
 	n := r.in.Len()
 	if r.recLen {
-		r.lens = append(r.lens, lenObs{simrt.Step(), n, simrt.CurID()})
+		r.lens = append(r.lens, lenObs{simrt.Step(), n, simrt.CurID(), inSelection()})
 	}
 	return n
 }
